@@ -50,7 +50,13 @@ func (l *roundRobinLoadBalancer) OnEvent(event Event) {
 	case *BootstrapEvent:
 		l.hosts.Store(evt.Hosts)
 	case *AddEvent:
-		l.hosts.Store(append(l.copy(), evt.Host))
+		cpy := l.copy()
+		for _, h := range cpy {
+			if h.Key() == evt.Host.Key() {
+				return // Already known, a second entry would be yielded twice by every query plan
+			}
+		}
+		l.hosts.Store(append(cpy, evt.Host))
 	case *RemoveEvent:
 		cpy := l.copy()
 		for i, h := range cpy {
